@@ -58,19 +58,15 @@ for _l in LANGS:
         assert sorted(MONTHS[_l][_form]) == list(range(1, 13)), (_l, _form)
 
 
-def is_ascii(w):
-    return all(ord(ch) < 128 for ch in w)
+def spellings(lang, m):
+    """every word the language configures for the month, long and short"""
+    return set(MONTHS[lang]["long"][m]) | set(MONTHS[lang]["short"][m])
 
 
-def fallbacks(lang, form, m):
-    """ASCII spellings written next to a spelling with the language's own letters"""
-    ws = MONTHS[lang][form][m]
-    return [w for w in ws if is_ascii(w) and any(not is_ascii(v) for v in ws)]
-
-
-def proper(lang, form, m):
-    fb = fallbacks(lang, form, m)
-    return [w for w in MONTHS[lang][form][m] if w not in fb]
+def survives(words, text):
+    """the crate lower-cases with Rust's language-independent str::to_lowercase (python's str.lower agrees on the
+    letters involved: I -> i, İ -> i + U+0307): a written form is recognised iff its lower-cased image is configured"""
+    return text.lower() in words
 
 
 def tr_upper(w):
@@ -82,12 +78,12 @@ DATE_FMT = {l: _L[l]["format"]["date"] for l in LANGS}
 DUR_FMT = {l: _L[l]["format"]["duration"] for l in LANGS}
 CODES = sorted(_cfg["currencies"].keys())
 
-CLASS_K1 = "C19-ascii-month-fallback-dead"
 CLASS_K2 = "C19-turkish-upper-case"
 
 RULE = ("pairs (en line, tr line) rendered from one abstract line, compared: operator words for the operators "
         "both languages name (%s; only one language names %s), duration keywords (second .. year, every configured "
-        "spelling), today / tomorrow / yesterday, month names (long and short, lower case / capitalised / upper case) "
+        "spelling), today / tomorrow / yesterday, month names (every configured long and short spelling, the ASCII "
+        "spellings of tr included; lower case / capitalised / upper case) "
         "in the date spellings both languages configure (`d Month y`, `d Month`, d/m/y), date +/- duration, sums and "
         "differences of durations, `A to B` <-> `A B arası` on dates and times, variables holding durations and "
         "dates; tr configures no conversion words, number-base words, timezone, unix-time or unit-conversion rules: "
@@ -108,7 +104,17 @@ ASSUMPTIONS = ["keyword classes (operator words, duration / day keywords, month 
 
 # ------------------------------------------------------------------ abstract lines
 # element: ("lit", text) | ("opw", op) | ("unit", name) | ("dayw", delta) | ("mon", m, form, casing, pick)
-# pick for tr months: "proper" | "fallback"
+# a month element takes any configured spelling of the form (ASCII spellings included); a casing that the
+# language-independent lower-casing would not bring back to a configured spelling is only generated by the table
+# section (element "monw": the tr word is fixed), where it is the known class K2
+
+def cased(lang, w, casing):
+    if casing == "cap":
+        return (tr_upper(w[0]) if lang == "tr" else w[0].upper()) + w[1:]
+    if casing == "upper":
+        return tr_upper(w) if lang == "tr" else w.upper()
+    return w
+
 
 def render_el(rng, lang, el):
     k = el[0]
@@ -121,16 +127,14 @@ def render_el(rng, lang, el):
     if k == "dayw":
         return rng.choice(CONST[lang][DAY_NO[el[1]]])
     if k == "mon":
-        _, m, form, casing, pick = el
-        if pick == "fallback" and fallbacks(lang, form, m):
-            w = rng.choice(fallbacks(lang, form, m))
-        else:
-            w = rng.choice(proper(lang, form, m))
-        if casing == "cap":
-            return (tr_upper(w[0]) if lang == "tr" else w[0].upper()) + w[1:]
-        if casing == "upper":
-            return tr_upper(w) if lang == "tr" else w.upper()
-        return w
+        _, m, form, casing = el
+        w = rng.choice(sorted(MONTHS[lang][form][m]))
+        t = cased(lang, w, casing)
+        return t if survives(spellings(lang, m), t) else w
+    if k == "monw":
+        _, m, form, casing, trw = el
+        w = trw if lang == "tr" else rng.choice(sorted(MONTHS[lang][form][m]))
+        return cased(lang, w, casing)
     raise ValueError(el)
 
 
@@ -184,11 +188,6 @@ def dim(y, m):
     return [31, 29 if leap(y) else 28, 31, 30, 31, 30, 31, 31, 30, 31, 30, 31][m - 1]
 
 
-def safe_upper(m):
-    """upper case does not involve the letters i / ı in any spelling of the month in tr"""
-    return not any(ch in "iı" for form in ("long", "short") for w in MONTHS["tr"][form][m] for ch in w)
-
-
 def a_date(rng, now_year, allow_default=True, allow_day=True):
     """(elements, uses a keyword)"""
     r = rng.random()
@@ -201,9 +200,7 @@ def a_date(rng, now_year, allow_default=True, allow_day=True):
         return [lit("%d/%d/%d" % (d, m, y))], False
     form = rng.choice(["long", "short"])
     casing = rng.choice(["lower", "lower", "cap", "upper"])
-    if casing == "upper" and not safe_upper(m):
-        casing = "cap"
-    mon = ("mon", m, form, casing, "proper")
+    mon = ("mon", m, form, casing)
     if allow_default and rng.random() < 0.25:
         return [lit(d), mon], True
     return [lit(d), mon, lit(y)], True
@@ -289,12 +286,12 @@ def same_case(text, kind, **meta):
 
 
 def generate(rng, tier):
-    n_pairs = 420 if tier == "quick" else 5000
-    n_free = 200 if tier == "quick" else 2500
+    n_pairs = 1000 if tier == "quick" else 5000
+    n_free = 450 if tier == "quick" else 2500
     now_year = datetime.datetime.utcnow().year
     cases = []
 
-    # -- every configured spelling once: operator words, duration / day keywords, month names (proper spellings)
+    # -- every configured spelling once: operator words, duration / day keywords, month names
     for op in SHARED_OPS:
         for lang in LANGS:
             for w in OPW[lang][op]:
@@ -317,30 +314,35 @@ def generate(rng, tier):
                 texts = {lang: w, other: rng.choice(CONST[other][no])}
                 cases.append({"ops": [{"op": "exec", "lang": l, "text": texts[l]} for l in LANGS],
                               "meta": {"kind": "table-day-keyword", "words": True}})
+    # every configured month spelling of every language (the ASCII spellings of tr included) in lower case,
+    # capitalised and in upper case; K2: the lower-cased image of the Turkish upper case is not a configured spelling
     for m in range(1, 13):
         for form in ("long", "short"):
-            y = rng.choice([2021, 1999, now_year])
-            d = rng.randint(1, 28)
-            cases.append(pair_case(rng, [lit(d), ("mon", m, form, "lower", "proper"), lit(y)], "table-month", words=True))
-            cases.append(pair_case(rng, [lit(d), ("mon", m, form, "cap", "proper")], "table-month", words=True))
-            # K1: the ASCII spelling written next to the Turkish one
-            if fallbacks("tr", form, m):
-                cases.append(pair_case(rng, [lit(d), ("mon", m, form, "lower", "fallback"), lit(2021)],
-                                       "month-ascii-fallback", words=True, cls=CLASS_K1))
-            # K2: upper case as Turkish writes it, for names with i / ı
-            if not safe_upper(m):
-                if any(ch in "iı" for w in proper("tr", form, m) for ch in w):
-                    cases.append(pair_case(rng, [lit(d), ("mon", m, form, "upper", "proper"), lit(2020)],
-                                           "month-turkish-upper", words=True, cls=CLASS_K2))
-            else:
-                cases.append(pair_case(rng, [lit(d), ("mon", m, form, "upper", "proper"), lit(2020)], "table-month", words=True))
+            for lang in LANGS:
+                for w in sorted(MONTHS[lang][form][m]):
+                    d = rng.randint(1, 28)
+                    for casing in ("lower", "cap", "upper"):
+                        if lang == "en":
+                            en_t = "%d %s %d" % (d, cased("en", w, casing), 2021)
+                            tr_t = "%d %s %d" % (d, rng.choice(sorted(MONTHS["tr"][form][m])), 2021)
+                            cases.append({"ops": [{"op": "exec", "lang": "en", "text": en_t},
+                                                  {"op": "exec", "lang": "tr", "text": tr_t}],
+                                          "meta": {"kind": "table-month", "words": True}})
+                            continue
+                        t = cased("tr", w, casing)
+                        els = [lit(d), ("monw", m, form, casing, w), lit(2020)]
+                        if survives(spellings("tr", m), t):
+                            cases.append(pair_case(rng, els, "table-month", words=True))
+                        else:
+                            cases.append(pair_case(rng, els, "month-turkish-upper", words=True, cls=CLASS_K2))
+            cases.append(pair_case(rng, [lit(rng.randint(1, 28)), ("mon", m, form, "cap")], "table-month", words=True))
 
-    # operator words in upper case: K2 when the Turkish word contains i / ı
+    # operator words in upper case: K2 when the lower-cased image of the Turkish upper case is not a configured word
     for op in SHARED_OPS:
         for w in OPW["tr"][op]:
             texts = {"en": "12 %s 4" % rng.choice(OPW["en"][op]).upper(), "tr": "12 %s 4" % tr_upper(w)}
             meta = {"kind": "operator-word-upper", "words": True}
-            if any(ch in "iı" for ch in w):
+            if not survives(set(OPW["tr"][op]), tr_upper(w)):
                 meta = {"kind": "operator-turkish-upper", "words": True, "cls": CLASS_K2}
             cases.append({"ops": [{"op": "exec", "lang": l, "text": texts[l]} for l in LANGS], "meta": meta})
 
@@ -514,8 +516,8 @@ def spec_check(c, rec, header):
 
 
 def known_class(c, rec, verdict, known):
-    """narrow classes keyed on how the case was generated (meta.cls: an ASCII fall-back month spelling; a Turkish
-    upper-case month name / operator word with i or ı) and on the recorded symptom: the word is not recognised,
+    """narrow class keyed on how the case was generated (meta.cls: a Turkish upper-case month name / operator word
+    whose lower-cased image is not a configured spelling) and on the recorded symptom: the word is not recognised,
     i.e. the en line is a date and the tr line is not / both are numbers and differ"""
     cls = c["meta"].get("cls")
     if cls not in {f["class"] for f in known}:
@@ -526,7 +528,7 @@ def known_class(c, rec, verdict, known):
     (ka, va), (kb, vb) = line_value(le[0]), line_value(lt[0])
     if ka != "item":
         return None
-    if c["meta"]["kind"] in ("month-ascii-fallback", "month-turkish-upper"):
+    if c["meta"]["kind"] == "month-turkish-upper":
         if va["t"] == "Date" and not (kb == "item" and vb["t"] == "Date"):
             return cls
     elif c["meta"]["kind"] == "operator-turkish-upper" and cls == CLASS_K2:
